@@ -216,7 +216,7 @@ func hostKind(h string) string {
 
 func TestCheck(t *testing.T) {
 	r := vp.New("C20", "exploration",
-		"URL round trip: nested loops over scheme x host x port x path (paths: every sequence of <=N symbols over all printable ASCII characters, 'é', '%2F', '%25', '//' after a leading '/'); URLs given as text and parsed with net/url: every printable ASCII character and 'é' written as a percent-escape in upper- and lower-case hex, alone, inside segments and in ordered pairs (the decoded path is what has to survive); a case is non-trivial when it has a port or a path; distinct = distinct (scheme,host,port,path). The addresses a publisher advertises when configured with listen URLs (5 host/scheme forms) and a handler path (11 paths with spaces, plus signs, several segments, non-ASCII) convert back to the configured endpoint. Helpers: ParsePeers for every list of <=4 over seven (address, peer) pairs of three peers against an independent grouping, with the URLs recovered from each peer's HTTP addresses; FindHTTPAddrs for every address made of 6 prefixes x {http, https, ws, wss, none} x every sequence of <=3 trailing components over {http-path (2 values), p2p, p2p-circuit}, alone and in 3 list shapes; every list of length <=4 over a 27-address alphabet (public, private, loopback, unspecified, localhost; the IP followed by tcp, udp, sctp, tls, http or nothing; http after tls/sni and before /p2p; ws / wss, which are not http) incl. nil and duplicates, all pairs of lists of length <=3 for equality; what FindHTTPAddrs and FilterPublic selected must read the same after the caller has overwritten its own list.",
+		"URL round trip: nested loops over scheme x host x port x path (paths: every sequence of <=N symbols over all printable ASCII characters, 'é', '%2F', '%25', '//' after a leading '/'); URLs given as text and parsed with net/url: every printable ASCII character and 'é' written as a percent-escape in upper- and lower-case hex, alone, inside segments and in ordered pairs (the decoded path is what has to survive); a case is non-trivial when it has a port or a path; distinct = distinct (scheme,host,port,path). The addresses a publisher advertises when configured with listen URLs (5 host/scheme forms) and a handler path (11 paths with spaces, plus signs, several segments, non-ASCII) convert back to the configured endpoint. Syncer.SameAddrs for every ordered pair of lists of 1..3 over three HTTP addresses (duplicates included) is multiset equality. Helpers: ParsePeers for every list of <=4 over seven (address, peer) pairs of three peers against an independent grouping, with the URLs recovered from each peer's HTTP addresses; FindHTTPAddrs for every address made of 6 prefixes x {http, https, ws, wss, none} x every sequence of <=3 trailing components over {http-path (2 values), p2p, p2p-circuit}, alone and in 3 list shapes; every list of length <=4 over a 27-address alphabet (public, private, loopback, unspecified, localhost; the IP followed by tcp, udp, sctp, tls, http or nothing; http after tls/sni and before /p2p; ws / wss, which are not http) incl. nil and duplicates, all pairs of lists of length <=3 for equality; what FindHTTPAddrs and FilterPublic selected must read the same after the caller has overwritten its own list.",
 		"URLs are built as url.URL{Scheme,Host,Path} values, and (section 2b) parsed from text; hosts are limited to 3 IPv4, 3 IPv6 (no zone, not v4-mapped) and 3 DNS names",
 		"IPv6 hosts are compared as IP values, not as text",
 		"FilterPublic: link-local and other special ranges that are neither loopback, private (net.IP.IsPrivate) nor unspecified are accepted either way; nothing is required of nil entries",
@@ -692,7 +692,66 @@ func checkPublisherAddrs(r *vp.Recorder) {
 	}
 }
 
+// checkSameAddrs: address-list equality where the sync client uses it: a
+// Syncer made for one address list is asked whether another list is the same
+// (the subscriber keeps or replaces its sync client by this answer). Every
+// ordered pair of lists of 1..3 entries over three HTTP addresses, duplicates
+// included: the answer is multiset equality.
+func checkSameAddrs(r *vp.Recorder) {
+	alpha := []multiaddr.Multiaddr{multiaddr.StringCast("/ip4/203.0.113.5/tcp/80/http"), multiaddr.StringCast("/dns/pub.example.org/tcp/443/https"), multiaddr.StringCast("/ip4/198.51.100.9/tcp/8080/http")}
+	var lists [][]int
+	var gen func(cur []int)
+	gen = func(cur []int) {
+		if len(cur) > 0 {
+			lists = append(lists, append([]int(nil), cur...))
+		}
+		if len(cur) == 3 {
+			return
+		}
+		for i := range alpha {
+			gen(append(cur, i))
+		}
+	}
+	gen(nil)
+	mk := func(l []int) []multiaddr.Multiaddr {
+		out := make([]multiaddr.Multiaddr, len(l))
+		for i, x := range l {
+			out[i] = alpha[x]
+		}
+		return out
+	}
+	canon := func(l []int) string { c := append([]int(nil), l...); sort.Ints(c); return fmt.Sprint(c) }
+	id := fixture.Key("ed25519", 0).ID
+	sy := ipnisync.NewSync(cidlink.DefaultLinkSystem(), nil)
+	defer sy.Close()
+	for _, a := range lists {
+		key := fmt.Sprintf("same-addrs|%v", a)
+		if !r.Mine(key) {
+			continue
+		}
+		r.Eval(key, true)
+		syncer, err := sy.NewSyncer(peer.AddrInfo{ID: id, Addrs: mk(a)})
+		if err != nil {
+			r.Violation("SameAddrs:new-syncer-error", key, err.Error(), nil)
+			continue
+		}
+		for _, b := range lists {
+			var got bool
+			if p, m := vp.Guard(func() { got = syncer.SameAddrs(mk(b)) }); p {
+				r.Violation("SameAddrs:panic", key, m, nil)
+				break
+			}
+			if want := canon(a) == canon(b); got != want {
+				r.Violation("SameAddrs:not-multiset-equality", key, fmt.Sprintf("a sync client made for %v, asked about %v: SameAddrs = %v, want %v", mk(a), mk(b), got, want), nil)
+				break
+			}
+		}
+		r.Outcome("same-addrs-ok")
+	}
+}
+
 func checkHelpers(r *vp.Recorder) {
+	checkSameAddrs(r)
 	checkPublisherAddrs(r)
 	checkHTTPPosition(r)
 	checkParsePeers(r)
